@@ -7,6 +7,7 @@ CONSTANTS
   MaxChan = 5
   CanClose = TRUE
   Cancels <- mcCancels
+  ProbeFirst = FALSE
 VIEW view
 INVARIANTS Emit
 CHECK_DEADLOCK FALSE
